@@ -104,12 +104,16 @@ def run_error_api(ctx, rows, internal):
         return True
     nprobe = 0
     errs = set()
+    reported = [0]
     for (n, h, pre, err, msg, ops, probes, bt) in plans:
         tr = p2.get(n, [])
         errs.add(err)
         ctx.count(len(ops), "errapi:" + n)
 
         def bad(k, what, expect=None):
+            reported[0] += 1
+            if reported[0] > 3:            # one defect shows in every state: three replays are enough
+                return
             ctx.violation("c09errapi-%s-%d" % (n, k), "# C09 (sf_perror / sf_error_str / sf_write_sync): state %s, pending error %d (%s)\n# %s\n%s--- script\n%s\n"
                           % (n, err, msg.decode("latin1"), what, ("expect-last %s\n" % expect) if expect else "", "\n".join(ops[:k + 1])))
         if len(tr) < len(ops):
@@ -149,7 +153,7 @@ def run_error_api(ctx, rows, internal):
                     break
         if not ok:
             found = True
-    ctx.notes["errapi"] = {"states": len(plans), "probes": nprobe, "distinct_pending_errors": len(errs), "model_requests": len(reqs)}
+    ctx.notes["errapi"] = {"states": len(plans), "failing_states": reported[0], "probes": nprobe, "distinct_pending_errors": len(errs), "model_requests": len(reqs)}
     ctx.coverage["traces_validated_against_impl"] += len(plans)
     return found
 
